@@ -3,10 +3,10 @@ package main
 import "strings"
 
 // Fault enumeration (C07, C13, C20): for a fault-free base history every single fault
-// (function x {error, panic} x {first execution, first two, always}) is enumerated; the
+// (function x {error, panic, error wrapping a foreign dig error} x {first execution, first two, always}) is enumerated; the
 // history is followed by two more rounds of all its Invokes (retries).
 
-const faultSlots = 96 // 16 functions x 6 faults per base history
+const faultSlots = 144 // 16 functions x 9 faults per base history
 
 func genFaultEnum(kind string, seed int64, idx int) *Case {
 	prof := kind[len("faultenum:"):]
@@ -25,15 +25,20 @@ func genFaultEnum(kind string, seed int64, idx int) *Case {
 			targets = append(targets, op.Fn)
 		}
 	}
-	fnSlot, fm := slot/6, slot%6
+	fnSlot, fm := slot/9, slot%9
 	if fnSlot >= len(targets) {
 		return nil
 	}
 	f := h.Fns[targets[fnSlot]]
 	fk := "err"
-	if fm >= 3 {
+	switch {
+	case fm >= 6:
+		// an error that wraps another container's dig error
+		fk = "digerr"
+		f.HasErr = true
+	case fm >= 3:
 		fk = "panic"
-	} else {
+	default:
 		f.HasErr = true
 	}
 	switch fm % 3 {
